@@ -287,7 +287,7 @@ def hll_cpc_bound_shapes(facts):
             import semantics
             est = "sketch.get_icon_estimate()" if "icon" in fn["name"] else "sketch.get_hip_estimate()"
             T = ("ICON" if "icon" in fn["name"] else "HIP")
-            x = "((14<sketch.get_lg_k())?%s_ERROR_CONSTANT:(%s_%s_SIDE_DATA[((3*(sketch.get_lg_k()-4))+(kappa-1))]/10000))" % (T, T, "LOW" if upper else "HIGH")
+            x = "((14<sketch.get_lg_k())?%s_ERROR_CONSTANT:(%s_%s_SIDE_DATA[(((sketch.get_lg_k()-4)*3)+(kappa-1))]/10000))" % (T, T, "LOW" if upper else "HIGH")
             core = "(%s/(1%s(kappa*(%s/sqrt((1<<sketch.get_lg_k()))))))" % (est, "-" if upper else "+", x)
             want = C("ceil(%s)" % core) if upper else C("max(%s,sketch.get_num_coupons())" % core)
             got = semantics.symbolic_return(fn)
